@@ -30,7 +30,7 @@ Section P.
     destruct x; cbn; [rewrite Hone|rewrite Hzero]; reflexivity.
   Qed.
 
-  Variables (a b c r2 : Z) (d2 : nat -> nat -> Z).
+  Variables (a b ca r2 : Z) (d2 : nat -> nat -> Z).
   Variables (tshape : list Z) (dtype : D) (multi : bool) (k : nat).
   Variables (rows : list (list V)) (mrows : option (list (list bool))).
   Variables (vin vout : list bool) (fill : option V) (sentinel : V).
@@ -226,17 +226,17 @@ Section P.
   (* ---- the main statement ---- *)
   Variable knn : list nat -> nat -> nat.
   Hypothesis Hknn : forall t, In t (compact vout) ->
-    knn_spec_tol a b c r2 (d2 t) (compact vin) (knn (compact vin) t).
+    knn_spec_tol a b ca r2 (d2 t) (compact vin) (knn (compact vin) t).
 
   Definition out := resample_nn veqb vzero vone knn tshape dtype multi k rows mrows vin vout fill sentinel.
   Definition cell (t : nat) : list V * list bool := nth t (o_cells out) ([], []).
 
   Definition is_value_cell (t : nat) : Prop :=
     exists s, nth t vout false = true /\ In s (compact vin) /\
-      (forall s', In s' (compact vin) -> (b * d2 t s <= a * d2 t s' + c)%Z) /\ (b * d2 t s <= a * r2 + c)%Z /\
+      (forall s', In s' (compact vin) -> (b * d2 t s <= a * d2 t s' + ca)%Z) /\ (b * d2 t s <= a * r2 + ca)%Z /\
       fst (cell t) = src_vals s /\ snd (cell t) = src_mask s.
   Definition is_fill_cell (t : nat) : Prop :=
-    (nth t vout false = false \/ forall s', In s' (compact vin) -> (b * r2 <= a * d2 t s' + c)%Z) /\
+    (nth t vout false = false \/ forall s', In s' (compact vin) -> (b * r2 <= a * d2 t s' + ca)%Z) /\
     (forall f, fill = Some f -> fst (cell t) = repeat f kk) /\
     (fill = None -> snd (cell t) = repeat true kk).
 
@@ -294,7 +294,7 @@ Section P.
 
   (* decisive cases: strictly inside the radius (beyond the slack) -> a value; all outside -> fill *)
   Lemma nn_value_if_inside t : t < length vout -> nth t vout false = true ->
-    (exists s, In s (compact vin) /\ (a * d2 t s + c < b * r2)%Z) -> is_value_cell t.
+    (exists s, In s (compact vin) /\ (a * d2 t s + ca < b * r2)%Z) -> is_value_cell t.
   Proof.
     intros Ht Hv (s & Hs & Hd). destruct (nn_is_nearest_or_fill t Ht) as [H|[[H|H] _]]; [exact H| |].
     - congruence.
@@ -302,7 +302,7 @@ Section P.
   Qed.
 
   Lemma nn_fill_if_outside t : t < length vout ->
-    (forall s, In s (compact vin) -> (a * r2 + c < b * d2 t s)%Z) -> is_fill_cell t.
+    (forall s, In s (compact vin) -> (a * r2 + ca < b * d2 t s)%Z) -> is_fill_cell t.
   Proof.
     intros Ht Hall. destruct (nn_is_nearest_or_fill t Ht) as [(s & _ & Hs & _ & Hr & _)|H]; [|exact H].
     specialize (Hall s Hs). exfalso. lia.
